@@ -2,9 +2,10 @@
    instance of Tables/RealSem.v at R := Z (definitions only).  The uninterpreted parts are given
    harmless values: float comparisons = integer comparisons, every number finite, kernels outside
    the core family return empty data. *)
-From Coq Require Import List String Bool NArith ZArith.
+From Coq Require Import List String Bool NArith ZArith QArith.
 From PV Require Import Shape.ShapeImpl Tables.OpSyntax Tables.OpRows Tables.ApiModel Tables.ApiTable Tables.ApiFacts Tables.RealSem.
 Import ListNotations.
+Local Close Scope Q_scope.
 Local Open Scope string_scope.
 
 Definition zother (r : reach) (e : @tenv Z) (ss : list shape) : list (list Z) := map (fun _ => []) ss.
@@ -89,3 +90,27 @@ Definition prog_guard : list (call AZ) :=
 
 (* Shape({2,3}, 0): the Shape constructor throws -- the call is rejected in both APIs alike *)
 Definition prog_bad_ctor : list (call AZ) := [ input [2; 3]%N 0%N [1; 2; 3; 4; 5; 6]%Z ].
+
+(* ---- the instance at R := Q, for the row-by-row comparison with the real code (engines/c04.py
+   model_rows: the same default calls as harness/api_row_drv.cc; its data are multiples of 1/4, so
+   float32 arithmetic of the core family is exact and equals the rational result) *)
+Local Close Scope N_scope.
+Definition qother (r : reach) (e : @tenv Q) (ss : list shape) : list (list Q) := map (fun _ => []) ss.
+Definition Qeager := real_eager 0%Q 1%Q Qplus Qmult Qminus Qopp Qle_bool (fun a b => negb (Qle_bool b a)) (fun _ => true) qother.
+Definition Qcreate := @real_create Q.
+Definition AQ := @attr Q.
+Definition qin (ds : list N) (b : N) (v : list Q) : call AQ :=
+  {| c_fn := k_input; c_args := [AAttr (ASh ds b); AAttr (AFs v); AAttr (ADev None)] |}.
+Definition mk (k : fkey) (a : list (arg AQ)) : call AQ := {| c_fn := k; c_args := a |}.
+(* data_for of the harness: 0.25 * ((7 i) mod 5) + 0.5 *)
+Definition qdata (n : nat) : list Q := map (fun i => Qmake (Z.of_nat ((i * 7) mod 5) + 2)%Z 4) (seq 0 n).
+Definition qM : call AQ := qin [2; 2]%N 1%N (qdata 4).
+Definition qS : call AQ := qin []%N 1%N (qdata 1).
+Definition qB : call AQ := qin [2]%N 2%N (qdata 4).
+Definition qP : call AQ := qin [2; 2]%N 1%N (repeat (Qmake 3 2) 4).
+Definition qtensor (t : @tensor Q) : list N * N * list (Z * positive) :=
+  (dims (tn_shape t), batch (tn_shape t), map (fun q => let r := Qred q in (Qnum r, Qden r)) (tn_data t)).
+(* results of the LAST call of a program through the eager API, its static Node shapes *)
+Definition qshow (p : list (call AQ)) :=
+  (match Qeager p with inl out => inl (map qtensor (last out [])) | inr me => inr me end,
+   match Qcreate p with inl out => inl (map (fun s => (dims s, batch s)) (last out [])) | inr me => inr me end).
